@@ -19,9 +19,15 @@ theorem no_self_deadlock (f : Fn) (hb : f.okKeeping = true) (o : Out) (hex : Exe
 /-- (2) the mutexes the analysis says are held at an access are the ones actually held: every access performed by any
     execution of an accepted body (any branch, any number of loop iterations) is in the computed list, with exactly the
     held set of that moment -/
-theorem held_sets_are_exact {s : Stmt} {σ σ' : St} {t : List Acc} {e : Exit} (h : ExecT s σ t σ' e)
-    (outs : List (St × Exit)) (hc : check s σ = some outs) : ∀ a ∈ t, a ∈ accs s σ :=
+theorem held_sets_are_exact {s : Stmt} {σ σ' : St} {t : List TEv} {e : Exit} (h : ExecT s σ t σ' e)
+    (outs : List (St × Exit)) (hc : check s σ = some outs) : ∀ a, TEv.acc a ∈ t → a ∈ accs s σ :=
   accs_sound h outs hc
+
+/-- (2') … and every acquisition of a mutex m while holding h, in any execution, is one of the edges (h, m) the
+    rank obligation is about -/
+theorem acquisition_edges_are_complete {s : Stmt} {σ σ' : St} {t : List TEv} {e : Exit} (h : ExecT s σ t σ' e)
+    (outs : List (St × Exit)) (hc : check s σ = some outs) : ∀ m H, TEv.acq m H ∈ t → ∀ x ∈ H, (x, m) ∈ edges s σ :=
+  edges_sound h outs hc
 
 /-- (3) why one common mutex is enough: in any interleaving that respects mutual exclusion (`holder` defined), two
     accesses by different threads, each made while its thread holds m, have between them a release of m by the first
